@@ -458,6 +458,7 @@ struct CallResult {
   std::vector<double> sig, isv, K;
   double rdt = 1;
   std::string out;   // what the behaviour wrote on its standard output
+  std::string msg;   // error message of the interface
   bool threw = false;
 };
 // one call of the behaviour: state (eto0, sig0, isv0) -> (sig1, isv1, K)
@@ -500,6 +501,7 @@ static CallResult call(const Behaviour& b, const std::vector<double>& mp, const 
     std::cout.rdbuf(old);
     r.out = os.str();
   }
+  r.msg = msg;
   return r;
 }
 
@@ -805,7 +807,10 @@ static void tangentCase(void* lib, const Json& c, Json& r) {
   const double kt = static_cast<double>(c["ktype"].asInt());
   const auto base = call(su.b, su.mp, su.eto0, su.deto, su.sig0, su.isv0, su.esv0, su.esv1, su.dt, kt);
   r.set("ret", Json(base.ret)).set("threw", Json(base.threw));
-  if (base.ret < 0 || base.threw) return;
+  if (base.ret < 0 || base.threw) {
+    r.set("msg", Json(base.msg.substr(0, 200)));
+    return;
+  }
   const State s1 = viewState(su, base.isv);
   bool active = false;
   for (size_t i = 0; i < s1.p.size(); ++i) active = active || s1.p[i] > su.s0.p[i];
